@@ -1,11 +1,11 @@
 SPECIFICATION Spec
 CONSTANTS
-  Threads = {"t1", "t2", "t3"}
+  Threads = {"t1", "t2"}
   Params = {"p1"}
   Vals = {"a", "b"}
   Errs = {"e1"}
   Conns = {"c1", "c2"}
-  MaxOps = 2
+  MaxOps = 3
   Omit = 2
   MaxNow = 2
   UseLock = TRUE
